@@ -37,6 +37,11 @@ func parseOptions() options {
 		types = append(types, k)
 	}
 
+	// Every option is a switch followed by its value.
+	if len(args)%2 == 0 {
+		panic("the last option has no value")
+	}
+
 	for i := 1; i < (len(args) - 1); i += 2 {
 		cSwitch := args[i]
 		cValue := args[i+1]
